@@ -111,7 +111,7 @@ def copy_option_clause(ctx, res, ce, prop, cid, outputs=True):
         asg = [n for n in walk_own(ro.node) if isinstance(n, ast.Assign) and isinstance(n.value, ast.Dict)]
         a = asg[0] if asg else None
         res.add(Finding(prop, cid, 'R-DOM', ro.file, ro.qualname, a.lineno if a else ro.node.lineno,
-                        'output entry value ' + norm(a.value) if a else 'output entry value',
+                        'output entry value: the arguments as given',
                         'the arguments of an intercepted output are recorded uncopied although copy-on-interception is enabled: appending to a list '
                         'after it was sent to the output changes what is recorded'))
 
